@@ -363,6 +363,44 @@ def outcome(program, stages, model):
                 return ('returned', qual, e[-1], stored)
     return ('returned', None, 0, stored)
 
+def decode_reach(chk, program, rule='DEC-REACH'):
+    """every well-formed frame reaches its generated decoder, addressed as it arrived: on the interpreted decode path (DecodePath)
+      * a single-frame message whose eight data bytes are all zero is decoded and returned (a payload of 0 is a payload: switches off, rudder amidships);
+      * for addressed PGNs -- 59904 (PDU1), 126208 (PDU1, data page 1) -- and a broadcast one, sent from 7 to 5 with priority 3, the inner stage
+        (_call_decode_function / _decode_fast_message) receives that PGN, priority, source and destination unchanged.
+    Not interpretable -> no verdict."""
+    from . import absint as A
+    consts = module_consts(program)
+    sf, cf = facts_or_none(program)
+    db = program.db
+    d0 = next(d for d in db.defs if not d.group.complex and d.pgn != consts['ISO_CLAIM_PGN'] and len(d.group.defs) == 1)
+    fn = program.fn('decoder', f"{CLS}._decode")
+    try:
+        dp = DecodePath(program, runtime_attrs(program, sf, cf, consts, [], []), consts)
+        r = dp.feed(d0.pgn, d0.id, src=7, data_items=[('c', 0)] * 8)
+        da = r.get('decode_args')
+        okz = r['status'] == 'returned' and da and len(da) == 1 and isinstance(da[0], A.AInt) and da[0].v == 0
+        chk.check(bool(okz), rule, 'all-zero-payload-is-decoded', file=DEC, line=fn.lineno, func='_decode', expected='returned; the generated decoder receives the integer 0',
+                  found='ok' if okz else {'status': r['status'], 'decoder argument': repr(da)[:60]}, detail='' if okz else 'a frame whose data bytes are all zero is dropped')
+        for pgn in (59904, 126208, 130306):
+            dp = DecodePath(program, runtime_attrs(program, sf, cf, consts, [], []), consts)
+            # (the addressing stand-ins of feed(): source as given, destination 255, priority 3 -- destination overridden below)
+            r = dp.feed(pgn, f"pgn{pgn}", src=7, dest=5)
+            calls = r.get('stage_calls') or []
+            if not calls:
+                raise A.Unknown('no inner stage was called')
+            nm, args = calls[0]
+            got = [a.v if isinstance(a, A.AInt) else repr(a) for a in args]
+            roles = {'_call_decode_function': ('pgn', 'priority', 'source', 'destination'), '_decode_fast_message': ('pgn', 'priority', 'source', 'destination')}[nm]
+            want = [pgn, 3, 7, 5]
+            if pgn == 130306:
+                want[3] = got[3] if got[3] in (5, 255) else 5          # a broadcast PGN: either the address as given or 255 is in keeping with the property
+            okp = got == want
+            chk.check(okp, rule, f"addressing-handed-on::pgn={pgn}", file=DEC, line=fn.lineno, func='_decode', expected=dict(zip(roles, want)), found=dict(zip(roles, got)),
+                      detail='' if okp else 'the inner stage (and with it the reassembly key and add_data) sees another PGN / source / destination / priority than the frame carried')
+    except (A.Unknown, A.RaiseSignal, teval.EvalUnknown, KeyError, AttributeError, TypeError, AnalysisError, StopIteration) as u:
+        chk.unit('decode_reach_not_interpretable', f"{type(u).__name__}: {u}"[:160])
+
 class DecodePath:
     """`_decode` and what it calls, run by the abstract interpreter on one decoder object: the configuration is given as attribute values
     (as make_model takes them), messages are fed one after the other with stand-in generated decoders, and after each the observable effects are
@@ -445,7 +483,7 @@ class DecodePath:
         from . import rules_reasm as RR
         return getattr(RR, 'FRAMES_REVERSED', True)
 
-    def feed(self, pgn, mid, src=7, name_int=12345, fast=False, mfr=None, data_items=None):
+    def feed(self, pgn, mid, src=7, name_int=12345, fast=False, mfr=None, data_items=None, dest=255):
         A = self.A
         program = self.program
         dec = self.dec
@@ -486,6 +524,16 @@ class DecodePath:
                 return msg
             if isinstance(f, ast.Attribute) and f.attr == '_isFastPGN':
                 return bool(fast)
+            if isinstance(f, ast.Attribute) and f.attr in ('_decode_fast_message', '_call_decode_function') and isinstance(f.value, ast.Name) and f.value.id == 'self' \
+                    and not st.get('in_stage_probe'):
+                st['in_stage_probe'] = True
+                try:
+                    st.setdefault('stage_calls', []).append((f.attr, [it.expr(a, env) for a in call.args[:4]]))
+                except A.Unknown:
+                    pass
+                finally:
+                    st['in_stage_probe'] = False
+                return NotImplemented
             if name in ('datetime.now', 'datetime.utcnow', 'time.time', 'time.monotonic'):
                 return A.AInt(10 ** 9 if now_after_window else 0)
             if name == 'timedelta':
@@ -556,7 +604,7 @@ class DecodePath:
             if p_ == 'self': args.append(dec)
             elif p_ == 'pgn': args.append(A.AInt(pgn))
             elif p_ in ('source_id', 'src'): args.append(A.AInt(src))
-            elif p_ in ('destination_id', 'dest'): args.append(A.AInt(255))
+            elif p_ in ('destination_id', 'dest'): args.append(A.AInt(dest))
             elif p_ == 'priority': args.append(A.AInt(3))
             elif p_ == 'can_data' and data_items is not None:
                 args.append(A.ABytes(list(data_items)))
@@ -572,7 +620,7 @@ class DecodePath:
             raise A.Unknown('the value returned is not the decoded message')
         now = dec.attrs['source_to_iso_name'].items.get(src) if isinstance(dec.attrs.get('source_to_iso_name'), A.ADict) else None
         return {'status': 'returned' if r is msg else 'filtered', 'stage': None if r is msg else ('_call_decode_function' if st['entered'] else '_decode'),
-                'stored': now is not before, 'attached': self.back(st['attached']), 'attached_raw': st['attached'], 'decode_args': st.get('decode_args'), 'map_entry': now, 'writes': st['writes'], 'msg': msg,
+                'stored': now is not before, 'attached': self.back(st['attached']), 'attached_raw': st['attached'], 'decode_args': st.get('decode_args'), 'stage_calls': st.get('stage_calls', []), 'map_entry': now, 'writes': st['writes'], 'msg': msg,
                 'add_data': st.get('add_data')}
 
 def outcome_interp(program, attrs, consts, pgn, mid, iso=None, now_after_window=False, extra_self=None):
